@@ -71,7 +71,7 @@ def work(item):
     except AttributeError:
         pass
     try:
-        {"term": _w_term, "sum": _w_sum, "deriv": _w_deriv, "reject": _w_reject}[kind](res, p)
+        {"term": _w_term, "wide-term": _w_term_wide, "sum": _w_sum, "deriv": _w_deriv, "reject": _w_reject}[kind](res, p)
     except Refuse as e:
         res.ob(1)
         res.inconc(f"translation refused: {e}")
@@ -107,6 +107,41 @@ def _w_term(res, p):
             res.d["vacuity_ok"] += 1
         else:
             res.herr("vacuity twin (opposite sign of the coefficient) was not refuted")
+
+
+def _w_term_wide(res, p):
+    """Terms that reach qubit indices of 8 and more (where the iteration order of a set of small ints stops being the sorted
+    order). The 2^n x 2^n matrix of a 9/10-qubit circuit is out of reach symbolically, and not needed: the circuit's operations
+    are re-indexed onto the qubits it actually touches (order-preserving), and that small circuit is compared with
+    exp(-i t c P') for the equally re-indexed string, for all t. Placement of gates on wide registers is C01's subject."""
+    from orquestra.quantum.circuits import Circuit
+    from orquestra.quantum.evolution import time_evolution_for_term
+
+    ops, c = p["ops"], p["coeff"]
+    term = term_from(ops, c)
+    res.nontrivial()
+    circ = time_evolution_for_term(term, T)
+    res.ob(1)
+    if circ.n_qubits != width(ops):
+        _cand(res, "term-width", f"evolution circuit of {term} has {circ.n_qubits} qubits, operator width {width(ops)}", p)
+        return
+    res.ob(0, 1, "concrete-structure")
+    used = sorted({int(q) for q in ops} | {q for op in circ.operations for q in op.qubit_indices})
+    if len(used) > 4:
+        res.ob(1)
+        _cand(res, "term-evolution", f"circuit for {c}*{ops} touches {len(used)} qubits {used}", p)
+        return
+    sigma = {q: i for i, q in enumerate(used)}
+    small = Circuit([op.gate(*[sigma[q] for q in op.qubit_indices]) for op in circ.operations], n_qubits=len(used))
+    ops_small = {sigma[int(q)]: l for q, l in ops.items()}
+    U = small.to_unitary()
+    O = oracle_term(ops_small, c, len(used), T)
+    P = Prover(res, unit=QUARTER)
+    r = P.prove_zero("term", lambda F: mat_delta(F.alg, F.mat(U), F.mat(O)), "term-evolution", sub="term-evolution")
+    fv = first_violation(r)
+    if fv:
+        _cand(res, "term-evolution-wide", f"circuit for {c}*{ops} (re-indexed onto qubits {used}) differs from exp(-i t c P) at {fv[0]}", p, fv[1])
+    res.sample({"term": f"{c}*{ops}", "n": circ.n_qubits, "touched": used, "gates": len(circ.operations)})
 
 
 def _ham(p):
@@ -231,6 +266,12 @@ def instances(tier, seed):
             if tier == "quick" and (k + seed) % 3 != ci:
                 continue
             items.append(("term", {"ops": {str(q): l for q, l in ops.items()}, "coeff": c, "twin": (k % 7 == 0), "label": f"{c}*{''.join(f'{l}{q}' for q, l in sorted(ops.items()))}"}))
+    wide = [{1: "Z", 8: "Z"}, {1: "X", 8: "Y"}, {0: "Z", 3: "X", 8: "Y"}, {7: "X", 8: "X"}, {8: "Y"}, {2: "Y", 9: "Z"}, {8: "Z", 9: "X"}, {0: "X", 9: "Y", 5: "Z"}]
+    if tier == "thorough":
+        wide += [{16: "Z", 1: "X"}, {8: "X", 16: "Y", 24: "Z"}, {33: "Y", 2: "Z"}, {9: "Z", 8: "Z", 10: "Z"}, {12: "X", 4: "Y", 20: "X"}]
+    for k, ops in enumerate(wide):
+        c = coeffs[k % 3]
+        items.append(("wide-term", {"ops": {str(q): l for q, l in ops.items()}, "coeff": c, "label": f"{c}*{''.join(f'{l}{q}' for q, l in ops.items())} (wide register)"}))
     hams = [
         [({"0": "X"}, 0.5), ({"0": "Z", "1": "Z"}, -0.75)],
         [({"0": "Z"}, 1), ({"0": "X", "1": "Y"}, 0.5), ({"0": "Y"}, -0.75)],
@@ -301,10 +342,23 @@ def replay(data):
     try:
         if clause in ("term-width", "sum-width", "derivative-structure", "imaginary-rejected", "constant-term-empty"):
             r = Result("replay")
-            kind = "reject" if "expect" in p else "term" if "coeff" in p else "deriv" if clause.startswith("deriv") else "sum"
-            {"term": _w_term, "sum": _w_sum, "deriv": _w_deriv, "reject": _w_reject}[kind](r, dict(p, label="replay"))
+            kind = "reject" if "expect" in p else ("wide-term" if max([int(q) for q in p["ops"]] + [0]) >= 8 else "term") if "coeff" in p else "deriv" if clause.startswith("deriv") else "sum"
+            {"term": _w_term, "wide-term": _w_term_wide, "sum": _w_sum, "deriv": _w_deriv, "reject": _w_reject}[kind](r, dict(p, label="replay"))
             c = [c for c in r.d["candidates"] if c["clause"] == clause]
             return bool(c), (c[0]["what"] if c else "no violation on re-execution")
+        if clause == "term-evolution-wide":
+            ops, c = p["ops"], p["coeff"]
+            n = width(ops)
+            if n > 11:
+                r = Result("replay")
+                _w_term_wide(r, dict(p, label="replay"))
+                cc = [x for x in r.d["candidates"] if x["clause"] == clause]
+                return bool(cc), (cc[0]["what"] if cc else "no violation on re-execution") + " (register too wide for a dense replay: re-indexed circuit re-checked)"
+            got = np.array(time_evolution_for_term(term_from(ops, c), tv).to_unitary(), dtype=complex)
+            Pm = np_pauli(ops, n)
+            want = np.cos(tv * c) * np.eye(2**n) - 1j * np.sin(tv * c) * Pm
+            d = np.abs(got - want).max()
+            return bool(d > 1e-7), f"max|delta|={d:.3g} at t={tv} on the full {n}-qubit register"
         if clause == "term-evolution":
             ops, c = p["ops"], p["coeff"]
             n = width(ops)
